@@ -78,7 +78,34 @@ def run(chk):
             chk.fail("R18.1", f"{FN}:tags", f"parse_wheel_tags({f!r}) = {got}, PEP 427 split is {exp}")
         else:
             chk.ok("R18.1", key=f)
-    chk.instance("R18.1", len(files))
+    # the same names after they have been *used*: a platform-less and a platform-bound EnvSpec evaluate them, then they are parsed again
+    # (shared/cached tag lists must not be altered by evaluation)
+    pvs = it.resolve(it.module("dep_logic.specifiers").ns["parse_version_specifier"])
+    rp = it.call(pvs, [">=3.8"], {})
+    wc, _ = dom.EnvSpec.lookup("wheel_compatibility")
+    chk.require(wc is not MISSING, "anchor EnvSpec.wheel_compatibility missing")
+    osm0 = dom.om
+    mem0 = {m.f["value"]: m for m in dom.Arch.members}
+    mac = it.construct(dom.Platform, [it.construct(it.resolve(osm0.ns["Macos"]), [12, 0], {}), mem0["aarch64"]], {})
+    used = [f for f in files if pep427(f) != "invalid" and "." in f.rsplit("-", 1)[-1][:-4]][:40] + \
+           ["pkg-1.0-py3-none-macosx_10_9_x86_64.macosx_11_0_arm64.whl", "pkg-1.0-cp311.cp312-abi3.none-manylinux_2_17_x86_64.linux_x86_64.any.whl"]
+    for f in used:
+        for spec in (dom.envspec(rp, None, None), dom.envspec(rp, mac, None)):
+            try:
+                it.call(Bound(wc, spec), [f], {})
+            except PyRaise:
+                pass
+        try:
+            again = tuple(list(x) for x in it.call(pwt, [f], {}))
+        except PyRaise as e:
+            chk.fail("R18.1", f"{FN}:after-use", f"parse_wheel_tags({f!r}) raises {e.exc!r} after the name was evaluated")
+            continue
+        if again != tuple(pep427(f)):
+            chk.fail("R18.1", f"{FN}:after-use", f"after wheel_compatibility({f!r}) was evaluated, parse_wheel_tags gives {again} instead of {pep427(f)}: "
+                     f"the tag lists handed out by the parser are shared and were altered")
+        else:
+            chk.ok("R18.1", key=("after-use", f))
+    chk.instance("R18.1", len(files) + len(used))
     chk.sample({"file": files[3], "tags": pep427(files[3])})
     # class facts: InvalidWheelFilename is a TagsError and a ValueError
     bases = [getattr(b, "name", None) for b in IWF.mro]
